@@ -15,6 +15,7 @@ from __future__ import annotations
 import itertools, os
 import numpy as np
 from vt.runner import Shard
+from vt import oracles as O
 
 LEVEL = "exploration"
 RULE = ("cases = (shape, frame sequence, omega step) with every frame ranging over all binary images of the shape; "
@@ -99,6 +100,31 @@ def expected_peaks(vol, inten, omegas):
     return out, multi
 
 
+def expected_peaks_many(vol, inten, omegas):
+    """expected_peaks for volumes with tens of thousands of components (one pass over the sorted voxel list)"""
+    lab, n = components3d(vol)
+    l2, n2 = scipy3d(vol)
+    if n != n2:
+        raise RuntimeError("oracles disagree")
+    f, s, fa = np.nonzero(lab)
+    k = lab[f, s, fa]
+    order = np.argsort(k, kind="stable")
+    f, s, fa, k = f[order], s[order], fa[order], k[order]
+    cuts = np.nonzero(np.diff(k))[0] + 1
+    out = []
+    for fi, si, fai in zip(np.split(f, cuts), np.split(s, cuts), np.split(fa, cuts)):
+        I = inten[fi, si, fai]
+        o = omegas[fi]
+        tot = I.sum()
+        im = int(np.argmax(I))
+        out.append(dict(npix=len(I), sumI=float(tot), sumI2=float((I * I).sum()),
+                        s=float((si * I).sum() / tot), f=float((fai * I).sum() / tot), o=float((o * I).sum() / tot),
+                        imax=float(I[im]), imax_s=int(si[im]), imax_f=int(fai[im]), imax_o=float(o[im]),
+                        mins=int(si.min()), maxs=int(si.max()), minf=int(fai.min()), maxf=int(fai.max()),
+                        mino=float(o.min()), maxo=float(o.max())))
+    return out
+
+
 def run_sequence(li_mod, frames, inten, omegas, thr=0.5):
     """frames: bool array (F,S,Fa). Returns parsed rows (list of dict)."""
     F = frames.shape[0]
@@ -178,6 +204,9 @@ def plan(tier, seed):
         for c in range(nchunk):
             shards.append(("seq", shape, F, c, nchunk))
     shards.append(("catalogue",))
+    shards.append(("bigframe",))
+    for c in range(4):
+        shards.append(("sched", c, 4, tier))
     k = seed % len(shards)
     return shards[k:] + shards[:k]
 
@@ -284,9 +313,89 @@ def _run_catalogue(desc):
     return sh
 
 
+def _bigframes():
+    """frames with more separate blobs than the labelling's initial bookkeeping holds (16384 slots): 16900 single-pixel blobs, then a
+    frame that continues half of them and starts 4225 others, then an empty one"""
+    S = Fa = 260
+    v = np.zeros((3, S, Fa), bool)
+    v[0, ::2, ::2] = True
+    v[1, :130:2, ::2] = True
+    v[1, 131::2, 1::4] = True
+    return v
+
+
+def _run_bigframe(desc):
+    from ImageD11 import labelimage
+    sh = Shard()
+    frames = _bigframes()
+    idx = np.arange(frames.size).reshape(frames.shape)
+    inten = 1.0 + ((idx * 37) % 4096) / 64.0
+    for step in (0.5, -1.0):
+        omegas = 5.0 + step * np.arange(frames.shape[0])
+        case = {"kind": "bigframe", "omega_step": step}
+        exp = expected_peaks_many(frames, inten, omegas)
+        rows = run_sequence(labelimage, frames, inten, omegas)
+        compare(sh, case, rows, exp, loose=True)
+        sh.evaluations += 1
+        sh.nontrivial += 1
+        sh.counters["max_components_in_one_history"] = max(sh.counters.get("max_components_in_one_history", 0), len(exp))
+    sh.sample({"case": case, "components": len(exp), "blobs_in_first_frame": int(frames[0].sum())}, limit=1)
+    return sh
+
+
+def _run_sched(desc):
+    """blobproperties (per-frame moments of every labelled blob) on the schedule-exploring runtime: every 3x3 image (thorough: 3x4),
+    labelled by the reference flood fill, T = 2 and 3 logical threads, preemption bound 2: all schedules must leave the result table
+    of the one-thread run.  (On the current tree the kernel has no parallel region: one schedule per call; the exploration is what
+    notices if one is introduced.)"""
+    _, c, nch, tier = desc
+    from vt.vrt import VRT, check_schedule_independence
+    sh = Shard()
+    V = VRT()
+    shp = (3, 3) if tier == "quick" else (3, 4)
+    n = shp[0] * shp[1]
+    from ImageD11 import cImageD11 as _cI
+    NPROP = int(_cI.NPROPERTY)
+    import ctypes
+    for x in range(1 + c, 1 << n, nch):
+        m = _bits_img(x, shp)
+        lab, npk = O.flood_components(m, True)
+        lab = np.ascontiguousarray(lab, np.int32)
+        data = np.ascontiguousarray(np.where(m, 1.0 + np.arange(n).reshape(shp) * 0.5, 0.0), np.float32)
+        res = np.full((npk, NPROP), -7.0)
+        ref, out, bad = check_schedule_independence(V, "blobproperties", [data, lab, npk, 0, shp[0], shp[1], res], [11.0], (0,), [res],
+                                                    threads=(2, 3), bound=2, void=True)
+        case = {"kind": "sched", "shape": list(shp), "image": x}
+        r1 = np.frombuffer(ref[1], float).reshape(npk, NPROP)
+        # the one-thread table against the definition (pixel count and intensity sum per blob)
+        for k in range(npk):
+            if r1[k, 0] != (lab == k + 1).sum() or abs(r1[k, 1] - data[lab == k + 1].sum()) > 1e-9:
+                sh.violation("blobproperties[vrt build]:counts", case, {"blob": k + 1, "row": r1[k, :3]})
+                break
+        for T, sched in bad:
+            sh.violation("blobproperties:schedule-dependent:T=%d" % T, dict(case, schedule=sched), {})
+        for r in out:
+            sh.states += r["nodes"]
+            sh.transitions += r["nodes"] - 1 + r["executions"]
+            sh.traces_validated += r["executions"]
+            sh.count("schedule_executions", r["total_executions"])
+            sh.count("conflict_words", r["filter_size"])
+            if r["capped"]:
+                sh.capped = True
+        sh.evaluations += 1
+        if npk >= 2:
+            sh.nontrivial += 1
+    sh.sample(case, limit=1)
+    return sh
+
+
 def run_shard(desc):
     if desc[0] == "seq":
         return _run_seq(desc)
+    if desc[0] == "bigframe":
+        return _run_bigframe(desc)
+    if desc[0] == "sched":
+        return _run_sched(desc)
     return _run_catalogue(desc)
 
 
@@ -303,6 +412,14 @@ def replay(case):
         rows = run_sequence(labelimage, frames, inten, omegas)
         compare(sh, case, rows, exp)
         return (not sh.violations), {"rows": rows, "expected": exp, "violations": sh.violations}
+    if case["kind"] == "bigframe":
+        r = _run_bigframe(("bigframe",))
+        v = [x for x in r.violations if x["case"]["omega_step"] == case["omega_step"]]
+        return (not v), {"violations": v}
+    if case["kind"] == "sched":
+        r = _run_sched(("sched", (case["image"] - 1) % 4, 4, "quick" if case["shape"] == [3, 3] else "thorough"))
+        v = [x for x in r.violations if x["case"]["image"] == case["image"]]
+        return (not v), {"violations": v}
     r = _run_catalogue(("catalogue",))
     v = [x for x in r.violations if x["case"]["name"] == case["name"]]
     return (not v), {"violations": v}
